@@ -803,6 +803,7 @@ def mon_c03(h, obs):
     steps = mon_exec.parse_trace(h, obs)
     master = {}        # chain -> verdict of the master rule as last read back (GetMasterRule), overriding the world's default
     forbidden = set()  # chains whose logout was approved
+    interhub = any("s:relaychain" in o and "trust:1,2,3,4" in o for o in h.ops)
     for i, st in enumerate(steps):
         if st[0] == "q" and st[1] == "obj" and st[2] == "appchain" and len(st[4]) > 3:
             m = re.search(r"status=(\S+)", st[3] or "")
@@ -828,6 +829,10 @@ def mon_c03(h, obs):
                 parts = origin.split(":")
                 chain = parts[0] if len(parts) == 2 else (parts[1] if len(parts) == 3 and parts[0] == "1356" else None)
                 verified = tx.proof == "ok" and chain not in forbidden and master.get(chain, ORIGIN_OK.get(chain, False)) and tx.typ in ("req", "ok", "fail", "rb")
+                if len(parts) == 3 and parts[0] != "1356":
+                    # relayed from another BitXHub: verified by more than (n-1)/3 signatures of that hub's registered validators —
+                    # the only such hub of these histories is 9999 with four validators (proof kind msig<k>: k valid signatures)
+                    verified = interhub and parts[0] == "9999" and tx.proof.startswith("msig") and tx.proof[4:].isdigit() and int(tx.proof[4:]) >= 2
                 if rc.ok and not verified:
                     hits.append(Hit(f"C03/unverified-ibtp-accepted/{tx.proof}", f"tx {j} of block {b.h}: proof={tx.proof} origin={origin} got a successful receipt", detail=b.op))
                 if not verified and j in {v[0] for vs in b.counter.values() for v in vs}:
